@@ -247,6 +247,49 @@ theorem pRpTraitsSet_coq (g : Nat) (ts : List Nat) (p : Nat) (ho : ∀ p', o = s
 
 end coq
 
+/-! ### the requests of the C05 statements -/
+
+/-- the request carries generation `g` for the provider with uuid `u`
+(PUT inventories, PUT one inventory, PUT aggregates from 1.19) -/
+def carries (u g : Nat) : Op R → Bool
+  | .invSet _ u' g' _ => u' == u && g' == g
+  | .invUpdate _ u' g' _ => u' == u && g' == g
+  | .aggsSet mv u' g' _ => u' == u && g' == some g && decide (mv ≥ 19)
+  | _ => false
+
+/-- a request carrying `(u, g)`: on every path to a 2xx answer, its write transaction runs the
+compare-and-swap on `(p, g)`, `p` the provider `u` names -/
+theorem carries_commits (cfg : Config) {u g : Nat} {op : Op R} (h : carries u g op = true) (o : Option Nat)
+    (p : Nat) (ho : ∀ p', o = some p' → p' = p) :
+    Commits (WRp u o) okR (CRp (R := R) u p g) (BRp p g) (prog cfg op) := by
+  cases op <;> simp only [carries, Bool.and_eq_true, beq_iff_eq, decide_eq_true_eq, Bool.false_eq_true] at h
+  · obtain ⟨rfl, rfl⟩ := h; exact pInvSet_commits _ _ _ p ho
+  · obtain ⟨rfl, rfl⟩ := h; exact pInvUpdate_commits _ _ _ p ho
+  · obtain ⟨⟨rfl, rfl⟩, hmv⟩ := h; exact pAggsSet_commits _ _ hmv _ p ho
+
+/-- the pool: no request creates, updates or deletes providers -/
+theorem pool_evo (cfg : Config) (ops : List (Op R)) (hops : ∀ op ∈ ops, isProviderOp op = false) :
+    PoolAll (QEvo (R := R) (fun _ => True)) (ops.map (prog cfg)) := by
+  intro p hp
+  obtain ⟨op, hop, rfl⟩ := List.mem_map.mp hp
+  exact prog_evo cfg op (hops op hop) (fun _ _ => trivial)
+
+/-- the request carries generation `g` for provider `u`, PUT traits included -/
+def carriesT (u g : Nat) (op : Op R) : Bool :=
+  carries u g op || (match op with
+    | .rpTraitsSet u' g' _ => u' == u && g' == g
+    | _ => false)
+
+theorem carriesT_coq (cfg : Config) {u g : Nat} {op : Op R} (h : carriesT u g op = true) (o : Option Nat)
+    (p : Nat) (ho : ∀ p', o = some p' → p' = p) :
+    CoQ (WRp u o) (CRp (R := R) u p g) (BRp p g) (prog cfg op) := by
+  cases op <;> simp only [carriesT, carries, Bool.and_eq_true, Bool.or_eq_true, beq_iff_eq, decide_eq_true_eq,
+    Bool.false_eq_true, or_false, false_or, or_self] at h
+  · obtain ⟨rfl, rfl⟩ := h; exact pInvSet_coq _ _ _ p ho
+  · obtain ⟨rfl, rfl⟩ := h; exact pInvUpdate_coq _ _ _ p ho
+  · obtain ⟨rfl, rfl⟩ := h; exact pRpTraitsSet_coq _ _ p ho
+  · obtain ⟨⟨rfl, rfl⟩, hmv⟩ := h; exact pAggsSet_coq _ _ hmv _ p ho
+
 /-! ### requests that derive the generation -/
 
 /-- the write of a deriving request succeeded against the provider row read before: the provider
